@@ -7,7 +7,8 @@ from core import AnalysisBroken, VERIF
 # property -> list of (rule id, module, function, tiers)
 CHECKS = {
     "C15": [("R-GLOBAL", "r_global", "run_global", ("quick", "thorough")),
-            ("R-CONSTSRC.ir", "r_constsrc", "run", ("quick", "thorough"))],
+            ("R-CONSTSRC.ir", "r_constsrc", "run", ("quick", "thorough")),
+            ("R-FATTAB", "r_fattab", "run", ("quick", "thorough"))],
     "C04": [("R-ALLOC.who", "r_global", "run_alloc_who", ("quick", "thorough")),
             ("R-TMP", "r_tmp", "run", ("quick", "thorough")),
             ("R-ALIAS.mem", "r_alias", "run_mem", ("quick", "thorough")),
